@@ -9,7 +9,7 @@ import itertools
 import random
 
 KEYS = ['a', 'b', 'x', 'q', '_u']
-LEAVES = [0, 1, 2, 'v', True, None, 1.5]
+LEAVES = [0, 1, 2, 'v', True, None, 1.5, '12', 'yes']      # incl. text that looks like another YAML type (must stay text when quoted)
 
 
 def leaf(v, tag=None):
